@@ -202,6 +202,7 @@ class ConfigParser(object):
     self._delegate = parser_delegate
     self._within_block = False
     self._statements_queue = collections.deque()
+    self._advance_pending = False
     self._advance_one_token()
 
   def __iter__(self):
@@ -227,6 +228,9 @@ class ConfigParser(object):
     if self._statements_queue:
       return self._statements_queue.popleft()
 
+    if self._advance_pending:
+      self._advance_pending = False
+      self._advance_one_token()
     self._skip_whitespace_and_comments()
     if self._current_token.type == tokenize.ENDMARKER:
       return None
@@ -261,8 +265,10 @@ class ConfigParser(object):
     if self._current_token.type not in end_types:
       self._raise_syntax_error('Expected newline.')
 
-    if self._current_token.type != tokenize.ENDMARKER:
-      self._advance_one_token()
+    # Move past the end of this statement only when the next one is requested:
+    # a tokenizer error on the following line must not prevent this (complete)
+    # statement from being returned and applied.
+    self._advance_pending = self._current_token.type != tokenize.ENDMARKER
 
     return statement
 
